@@ -251,4 +251,136 @@ example : goodZoom (Pyramid.newFull 5) = some 5 ∧ centerZoom (Pyramid.newFull 
 
 example : sortIndex 3 2 3 = .ok (21 + 8 * 2 + 3) ∧ sortIndex 0 0 31 = .ok 1537228672809129301 := by decide
 
+/-! ### `from_geo_bbox` -/
+
+theorem new_level {l a b c d : Nat} {bx : BBox} (h : BBox.new l a b c d = .ok bx) : bx.level = l ∧ l ≤ 31 := by
+  unfold BBox.new at h
+  repeat' split at h
+  all_goals first | (cases h; exact ⟨rfl, by omega⟩) | cases h
+
+theorem bboxFromGeo_level {z : Nat} {g : Geo.GeoBBox} {b : BBox} (h : Geo.bboxFromGeo z g = .ok b) :
+    b.level = z ∧ z ≤ 31 := by
+  unfold Geo.bboxFromGeo at h
+  split at h
+  · cases h
+  · split at h
+    · cases h
+    · split at h
+      · exact new_level h
+      all_goals cases h
+
+/-- one step of the loop in `from_geo_bbox` -/
+def stepG (g : Geo.GeoBBox) (acc : Outcome Pyramid) (z : Nat) : Outcome Pyramid :=
+  acc.bind fun p => (Geo.bboxFromGeo z g).unwrap.bind fun b => Pyramid.setLevel p b
+
+theorem fromGeoBBox_eq (zmin zmax : Nat) (g : Geo.GeoBBox) :
+    fromGeoBBox zmin zmax g = (List.range' zmin (zmax + 1 - zmin)).foldl (stepG g) (.ok Pyramid.newEmpty) := rfl
+
+theorem foldl_not_ok (g : Geo.GeoBBox) (l : List Nat) (a : Outcome Pyramid) (h : ∀ p, a ≠ .ok p) :
+    ∀ p, l.foldl (stepG g) a ≠ .ok p := by
+  induction l generalizing a with
+  | nil => simpa using h
+  | cons z l ih =>
+    simp only [List.foldl_cons]
+    apply ih
+    intro p
+    cases a with
+    | ok q => exact absurd rfl (h q)
+    | err => simp [stepG, Outcome.bind]
+    | panic => simp [stepG, Outcome.bind]
+
+theorem step_ok {g : Geo.GeoBBox} {p0 p1 : Pyramid} {z : Nat} (h : stepG g (.ok p0) z = .ok p1) :
+    ∃ b, Geo.bboxFromGeo z g = .ok b ∧ z < p0.length ∧ p1 = p0.set z b := by
+  unfold stepG at h
+  simp only [Outcome.bind] at h
+  cases hb : Geo.bboxFromGeo z g with
+  | ok b =>
+    rw [hb] at h
+    simp only [Outcome.unwrap, Pyramid.setLevel] at h
+    have hl := (bboxFromGeo_level hb).1
+    split at h
+    · rename_i hlt
+      cases h
+      exact ⟨b, rfl, by omega, by rw [hl]⟩
+    · cases h
+  | err => rw [hb] at h; simp [Outcome.unwrap] at h
+  | panic => rw [hb] at h; simp [Outcome.unwrap] at h
+
+theorem foldl_spec (g : Geo.GeoBBox) (l : List Nat) (p0 p : Pyramid) (hw : WF p0) (hn : l.Nodup)
+    (h : l.foldl (stepG g) (.ok p0) = .ok p) :
+    WF p ∧ (∀ z ∈ l, ∃ b, Geo.bboxFromGeo z g = .ok b ∧ p[z]? = some b) ∧ (∀ z, z ∉ l → p[z]? = p0[z]?) := by
+  induction l generalizing p0 with
+  | nil =>
+    simp only [List.foldl_nil] at h
+    cases h
+    exact ⟨hw, by simp, by simp⟩
+  | cons z l ih =>
+    simp only [List.foldl_cons] at h
+    cases h1 : stepG g (.ok p0) z with
+    | ok p1 =>
+      rw [h1] at h
+      obtain ⟨b, hb, hlt, rfl⟩ := step_ok h1
+      have hbl := (bboxFromGeo_level hb).1
+      have hw1 : WF (p0.set z b) := by
+        refine ⟨by rw [List.length_set]; exact hw.1, ?_⟩
+        intro z' hz'
+        rw [List.length_set] at hz'
+        by_cases he : z = z'
+        · subst he; simp [hbl]
+        · rw [List.getElem_set_ne he]; exact hw.2 z' hz'
+      have hn' := List.nodup_cons.mp hn
+      obtain ⟨hwp, hin, hout⟩ := ih (p0.set z b) hw1 hn'.2 h
+      refine ⟨hwp, ?_, ?_⟩
+      · intro z' hz'
+        rcases List.mem_cons.mp hz' with rfl | hz'
+        · refine ⟨b, hb, ?_⟩
+          rw [hout _ hn'.1]
+          simp [hlt]
+        · exact hin z' hz'
+      · intro z' hz'
+        have hne : z ≠ z' := fun he => hz' (by rw [he]; exact List.mem_cons_self)
+        have hnl : z' ∉ l := fun hm => hz' (List.mem_cons_of_mem _ hm)
+        rw [hout z' hnl, List.getElem?_set_ne hne]
+    | err => rw [h1] at h; exact absurd h (foldl_not_ok g l _ (by simp) p)
+    | panic => rw [h1] at h; exact absurd h (foldl_not_ok g l _ (by simp) p)
+
+/-- **`from_geo_bbox`**: inside `zoom_min..=zoom_max` every level is `from_geo(level, bbox)`, every
+    other level is empty; any level the geo box cannot be projected at (level > 31, invalid box)
+    makes the whole call panic (`unwrap`), it never returns a partial pyramid. -/
+theorem from_geo_bbox_spec (zmin zmax : Nat) (g : Geo.GeoBBox) (p : Pyramid)
+    (h : fromGeoBBox zmin zmax g = .ok p) :
+    WF p ∧
+    (∀ z, zmin ≤ z → z ≤ zmax → ∃ b, Geo.bboxFromGeo z g = .ok b ∧ p[z]? = some b) ∧
+    (∀ z, ¬ (zmin ≤ z ∧ z ≤ zmax) → p[z]? = Pyramid.newEmpty[z]?) := by
+  rw [fromGeoBBox_eq] at h
+  obtain ⟨hw, hin, hout⟩ := foldl_spec g _ _ p wf_newEmpty (List.nodup_range' (step := 1)) h
+  refine ⟨hw, ?_, ?_⟩
+  · intro z h1 h2
+    apply hin
+    rw [List.mem_range'_1]; omega
+  · intro z hz
+    apply hout
+    rw [List.mem_range'_1]; omega
+
+theorem from_geo_bbox_never_err (zmin zmax : Nat) (g : Geo.GeoBBox) : fromGeoBBox zmin zmax g ≠ .err := by
+  rw [fromGeoBBox_eq]
+  generalize List.range' zmin (zmax + 1 - zmin) = l
+  suffices ∀ a : Outcome Pyramid, a ≠ .err → l.foldl (stepG g) a ≠ .err from this _ (by simp)
+  induction l with
+  | nil => intro a ha; simpa using ha
+  | cons z l ih =>
+    intro a ha
+    simp only [List.foldl_cons]
+    apply ih
+    cases a with
+    | err => exact absurd rfl ha
+    | panic => simp [stepG, Outcome.bind]
+    | ok q =>
+      simp only [stepG, Outcome.bind]
+      cases Geo.bboxFromGeo z g with
+      | ok b => simp only [Outcome.unwrap, Pyramid.setLevel]; split <;> simp
+      | err => simp [Outcome.unwrap]
+      | panic => simp [Outcome.unwrap]
+
+
 end VtProps.C15Extra
